@@ -102,7 +102,9 @@ def run(chk, prog):
     # main has to hand both constructions the same value for every parameter they share (a name-role rule cannot see V_RF passed
     # where both constructors call the parameter V_RF but the static sibling receives V_eff)
     for model, pair in sorted(built.items()):
-        A.require(set(pair) == {"static", "dynamic"}, "main: static/dynamic construction of the %s RF map not found" % model)
+        if not chk.check(set(pair) == {"static", "dynamic"}, "R1", mainf.where, "main builds a static and a dynamic %s RF map (found %s)" % (model, sorted(pair)),
+                         "main:siblings:%s:present:%s" % (model, sorted(pair))):
+            continue
         (xs, cs), (xd, cd) = pair["static"], pair["dynamic"]
         argmap = lambda c_: {p_: A.show(A.strip(a_)).replace(" ", "") for p_, a_ in zip(c_.get("callee_params", []), c_.get("args", []))}
         ms, md = argmap(cs), argmap(cd)
@@ -184,10 +186,14 @@ def run(chk, prog):
         ok = len(calls) == 1 and A.this_field(calls[0]["args"][0]) == "_syncphase" and \
             (len(calls[0]["args"]) == 1 or calls[0]["args"][1]["k"] == "CXXDefaultArgExpr")
         chk.check(ok, "R2", c.where, "static constructor computes the kick with (_syncphase, default amplitude)", "RFKickMap::ctor:calcKick-args")
-    dk = prog.fn("vfps::DynamicRFKickMap::_calcKick", nparams=0)
+    # the place where the dynamic map rebuilds its kick: the one call of RFKickMap::_calcKick(phase, amplitude) in the class, be it in a
+    # helper of its own (DynamicRFKickMap::_calcKick) or written out in apply()
+    dyn_fns = [f for f in prog.functions.values() if f.get("class") == "vfps::DynamicRFKickMap" and f.get("body") and f.get("kind") not in ("ctor", "dtor")]
+    sites = [(f, x) for f in dyn_fns for x in A.walk(f["body"]) if x.get("callee") == "vfps::RFKickMap::_calcKick"]
+    A.require(len(sites) == 1, "DynamicRFKickMap: expected one call of RFKickMap::_calcKick outside the constructors, found %d" % len(sites))
+    dk = sites[0][0]
     chk.used(dk)
-    calls = [x for x in A.walk(dk["body"]) if x.get("callee") == "vfps::RFKickMap::_calcKick"]
-    A.require(len(calls) == 1, "DynamicRFKickMap::_calcKick: forwarding call not found")
+    calls = [sites[0][1]]
     sdk = I.scan(dk)
     fc = [c for c in sdk.calls if c.callee == "vfps::RFKickMap::_calcKick"]
     txt = [str(a).replace(" ", "") for a in fc[0].args]
@@ -222,7 +228,7 @@ def run(chk, prog):
             return o is not None and A.this_field(o) == field
         return pred
     ev = {
-        "calcKick": Fl.is_call_to("vfps::DynamicRFKickMap::_calcKick"),
+        "calcKick": Fl.is_call_to("vfps::RFKickMap::_calcKick") if dk["qname"] == "vfps::DynamicRFKickMap::apply" else Fl.is_call_to(dk["qname"]),
         "KickMap::apply": Fl.is_call_to("vfps::KickMap::apply"),
         "emplace_back(past)": on_field("::emplace_back", "_past_modulation"),
         "pop(next)": on_field("::pop", "_next_modulation"),
@@ -253,7 +259,7 @@ def run(chk, prog):
                 fld = A.this_field(o) if o is not None else None
                 if fld in ("_next_modulation", "_past_modulation") and not x.get("callee_const"):
                     writers.setdefault(fld, set()).add((f["name"], x["callee"].split("::")[-1]))
-    chk.check(writers.get("_next_modulation", set()) <= {("apply", "pop"), ("_calcKick", "front"), ("apply", "front")}, "R3", site,
+    chk.check(writers.get("_next_modulation", set()) <= {("apply", "pop"), (dk["name"], "front"), ("apply", "front")}, "R3", site,
               "queue is consumed only by apply()/_calcKick: %s" % sorted(writers.get("_next_modulation", [])), "DynamicRFKickMap:queue-writers:%s" % sorted(writers.get("_next_modulation", [])))
     chk.check(writers.get("_past_modulation", set()) <= {("apply", "emplace_back"), ("getPastModulation", "clear")}, "R3", site,
               "past list is written only by apply() and drained only by getPastModulation(): %s" % sorted(writers.get("_past_modulation", [])),
